@@ -96,8 +96,10 @@ pub fn jtoken_to_runtime_object(
         ))),
         serde_json::Value::Bool(value) => Ok(Rc::new(Value::new::<bool>(value.to_owned()))),
         serde_json::Value::Number(_) => {
-            if token.is_i64() {
-                let val: i32 = token.as_i64().unwrap().try_into().unwrap();
+            if let Some(int_val) = token.as_i64() {
+                let val: i32 = int_val.try_into().map_err(|_| {
+                    StoryError::BadJson(format!("Integer value out of range: {}", token))
+                })?;
                 Ok(Rc::new(Value::new::<i32>(val)))
             } else {
                 let val: f32 = token.as_f64().unwrap() as f32;
@@ -109,7 +111,9 @@ pub fn jtoken_to_runtime_object(
             let str = value.as_str();
 
             // String value
-            let first_char = str.chars().next().unwrap();
+            let first_char = str.chars().next().ok_or_else(|| {
+                StoryError::BadJson("Failed to convert empty string token to runtime RTObject".to_owned())
+            })?;
             if first_char == '^' {
                 return Ok(Rc::new(Value::new::<&str>(&str[1..])));
             } else if first_char == '\n' && str.len() == 1 {
@@ -360,7 +364,10 @@ fn jarray_to_container(
     //  - named content
     //  - a "#f" key with the countFlags
     // (if either exists at all, otherwise null)
-    let terminating_obj = jarray[jarray.len() - 1].as_object();
+    let terminating_obj = jarray
+        .last()
+        .ok_or_else(|| StoryError::BadJson("Container array must not be empty".to_owned()))?
+        .as_object();
     let mut name: Option<String> = name;
     let mut flags = 0;
 
@@ -402,7 +409,7 @@ pub fn jarray_to_runtime_obj_list(
     let mut count = jarray.len();
 
     if skip_last {
-        count -= 1;
+        count = count.saturating_sub(1);
     }
 
     let mut list: Vec<Rc<dyn RTObject>> = Vec::with_capacity(jarray.len());
